@@ -12,7 +12,9 @@ Case (driver "events"):
    events carry "tok": true when a unique '#n' token is appended to their first line (to attribute
    deliveries); untokened events (needed for the 'nothing after the name' form) are attributed by name
    "pre": [listener ids registered (and acknowledged) before the session starts],
-   "sched": [0 | n>0 | ["add", i] | ["rm", i], ...]}
+   "sched": [0 | n>0 | ["ln", m] | ["add", i] | ["rm", i], ...]}
+        0 = submit the next command, n = deliver n bytes, ["ln", m] = deliver up to the end of the m-th next line,
+        ["re"] = deliver up to the end of the last reply produced so far
 """
 from __future__ import annotations
 
@@ -28,7 +30,8 @@ LEVEL = "exploration"
 RULE = ("Hypothesis-generated sessions as in C01 plus 650 events (single-line, multi-line, data-block; "
         "payload possibly empty; names with listeners, without, and removed-but-still-subscribed) inserted "
         "between replies - before the next command is received or while it is in flight (plain and "
-        "per-line-callback commands) - and a listener programme (add/remove between chunks or from inside a "
+        "per-line-callback commands; delivery in byte counts or up to line ends, so that commands and SETEVENTS are "
+        "also written while a multi-line event is half received) - and a listener programme (add/remove between chunks or from inside a "
         "callback; raising listeners); oracle = listener-set model + C01 reply model + SETEVENTS-set model. "
         "Non-trivial = an event is delivered while a command is in flight, or the listener set changes "
         "during a delivery; distinct = distinct canonical JSON.")
@@ -79,10 +82,19 @@ def listeners():
 def schedules():
     step = st.one_of(st.just(0), st.just(1), st.integers(1, 8), st.integers(1, 80), st.integers(1, 400),
                      st.just(10 ** 9),
+                     st.tuples(st.just("ln"), st.integers(1, 3)).map(list),
+                     st.tuples(st.just("ln"), st.just(1)).map(list),
                      st.tuples(st.just("add"), st.integers(0, 4)).map(list),
                      st.tuples(st.just("add"), st.integers(0, 4)).map(list),
                      st.tuples(st.just("rm"), st.integers(0, 4)).map(list))
-    return st.lists(step, max_size=50)
+    # line-granular schedules: every delivery ends at a line end, so a submit / add / rm that follows often finds
+    # a multi-line or data-block event half received
+    lstep = st.one_of(st.just(0), st.just(0), st.just(0), st.just(["ln", 1]), st.just(["ln", 1]), st.just(["ln", 1]),
+                      st.just(["ln", 2]),
+                      st.tuples(st.just("add"), st.integers(0, 4)).map(list),
+                      st.tuples(st.just("rm"), st.integers(0, 4)).map(list))
+    return st.one_of(st.lists(step, max_size=50), st.lists(step, max_size=50),
+                     st.lists(lstep, min_size=4, max_size=40))
 
 
 @st.composite
@@ -92,6 +104,27 @@ def cases(draw):
     pre = draw(st.lists(st.integers(0, len(ls) - 1), max_size=len(ls), unique=True))
     return {"cmds": cmds, "events": draw(placed_events(len(cmds))),
             "listeners": ls, "pre": pre, "sched": draw(schedules())}
+
+
+@st.composite
+def mid_event_cases(draw):
+    """Cases built so that a command (or the SETEVENTS of a listener change) is written at once - nothing in
+    flight - while a multi-line / data-block event is half received."""
+    case = draw(cases())
+    cmds = list(case["cmds"])
+    while len(cmds) < 2:
+        cmds.append(draw(c01.commands(long=False, max_parts=3)))
+    k = draw(st.integers(1, len(cmds) - 1))
+    ev = draw(event_specs().filter(lambda e: e["form"] != "single"))
+    ls = list(case["listeners"])
+    if not any(l["name"] == ev["name"] for l in ls) and ev["name"] in NAMES[:4]:
+        ls[0] = dict(ls[0], name=ev["name"])
+    events = [e for e in case["events"] if not (e["pos"] == k and not e["late"])]
+    events.append({"pos": k, "late": False, "ev": ev})
+    writer = draw(st.sampled_from([0, 0, ["add", 0], ["add", 1], ["rm", 0], ["add", 2]]))
+    sched = [0, ["re"]] * k + [["ln", draw(st.integers(1, 3))], writer] + draw(schedules())
+    return {"cmds": cmds, "events": events, "listeners": ls,
+            "pre": draw(st.lists(st.integers(0, len(ls) - 1), max_size=len(ls), unique=True)), "sched": sched}
 
 
 # --------------------------------------------------------------------------- driver
@@ -113,6 +146,8 @@ class _Run(object):
         self.served = 0
         self.reply_ends = []          # per written command (incl. SETEVENTS) end offset of its reply
         self.event_spans = []         # (end_offset, event_index) in stream order
+        self.event_starts = {}
+        self.mid_event_writes = 0
         evs = case["events"] if with_events else []
         self.events = [dict(e["ev"], id=i) for i, e in enumerate(evs)]
         self.early = {}
@@ -162,6 +197,7 @@ class _Run(object):
             data = self._wire_event(i)
             self.pipe.produce(data)
             self.event_spans.append((self.pipe.produced, i))
+            self.event_starts[i] = self.pipe.produced - len(data)
 
     def _handler(self, line):
         if self.n_boot is None:
@@ -245,9 +281,32 @@ class _Run(object):
         return cb
 
     # ---- schedule
+    def _note_write(self, n_before):
+        """a command was written at once (idle queue) while an event was partly received (>= 1 complete line)"""
+        if len(self.pipe.commands) == n_before:
+            return
+        d = self.pipe.delivered
+        for end, i in self.event_spans:
+            st_ = self.event_starts[i]
+            if st_ < d < end and b"\r\n" in self._wire_event(i)[:d - st_]:
+                self.mid_event_writes += 1
+
+    def deliver_lines(self, m, res):
+        pend = self.pipe.pending
+        pos = 0
+        for _ in range(m):
+            k = pend.find(b"\r\n", pos)
+            if k < 0:
+                pos = len(pend)
+                break
+            pos = k + 2
+        if pos:
+            self.deliver(pos, res)
+
     def submit_next(self):
         if self.submitted >= len(self.cmds):
             return False
+        n_before = len(self.pipe.commands)
         c = self.cmds[self.submitted]
         self.submitted += 1
         proto = self.pipe.proto
@@ -263,6 +322,7 @@ class _Run(object):
             else:
                 d = proto.queue_command(c["text"], got.append)
         self.watches.append(Watch(d))
+        self._note_write(n_before)
         self.pipe.pump()
         return True
 
@@ -423,11 +483,19 @@ class _Run(object):
                 self.submit_next()
             elif isinstance(step, int):
                 self.deliver(step, res)
+            elif step[0] == "ln":
+                self.deliver_lines(step[1], res)
+            elif step[0] == "re":
+                # up to the end of the last reply produced so far (events behind it stay undelivered)
+                if self.reply_ends and self.reply_ends[-1] > self.pipe.delivered:
+                    self.deliver(self.reply_ends[-1] - self.pipe.delivered, res)
             elif self.with_events:
+                n_before = len(self.pipe.commands)
                 if step[0] == "add":
                     self.add(step[1])
                 else:
                     self.rm(step[1])
+                self._note_write(n_before)
                 self.pipe.pump()
         while self.submit_next():
             pass
@@ -481,6 +549,8 @@ def drive_events(case):
                 break
 
     res.nontrivial = bool(r.inflight_event or r.set_changed_during)
+    if r.mid_event_writes:
+        res.label("command-written-while-an-event-is-half-received")
     if r.set_changed_during:
         res.label("listener-set-changed-during-delivery")
     forms = set(e["ev"]["form"] for e in case["events"])
@@ -511,6 +581,8 @@ MANIFEST = {
 }
 
 MUTANTS = [
+    ("command-issue-clears-collected-text", "txtorcon/torcontrolprotocol.py",
+     "            self.defer = d\n\n", "            self.defer = d\n            self.response = ''\n\n"),
     ("code-not-reset-after-notify", "txtorcon/torcontrolprotocol.py",
      "            self._handle_notify(self.code, resp)\n            self.code = None\n",
      "            self._handle_notify(self.code, resp)\n"),
@@ -539,7 +611,8 @@ MUTANTS = [
 
 
 def run(ctx):
-    ctx.search("events", cases(), quick=1200, thorough=4500)
+    ctx.search("events", cases(), quick=1000, thorough=4000)
+    ctx.search("events", mid_event_cases(), quick=250, thorough=1500, name="events:command-written-mid-event")
     if not ctx.quick() and ctx.shard == 0:
         from vlib import fuzzrun
         fuzzrun.run_atheris(ctx, "c01_atheris.py", "events", 60000,
